@@ -795,6 +795,99 @@ EQUIV_VARIANTS.append(_mk(_Unary, "sqrt", ("q",), out="v0", power=UNARY_POW["sqr
 ALL += EQUIV_VARIANTS
 
 
+# ------------------------------------------------------------------ reductions
+class _Reduce(_Ufunc):
+    """ufunc.reduce on a quantity (np.sum / max / min / prod and the ndarray methods arrive here as
+    add.reduce, maximum.reduce, minimum.reduce, multiply.reduce).  C04: 'arithmetic ufuncs and their
+    reductions': the result is the reduction of the SI magnitudes; the numbers are NumPy's on the bare
+    data (C06); the operand is untouched (C18).  The number of elements combined is symbolic."""
+    method = "reduce"
+    need_str = False
+    kwargs = {}
+    degree = 1                      # homogeneity degree per element combined: 1 (add/max/min) or "n" (multiply)
+
+    def call_kwargs(self, formals):
+        return dict(self.kwargs)
+
+    def count(self, it, a):
+        """the number of elements the caller's request combines into one result element (np.ufunc.reduce:
+        axis=0 by default, axis=None: all of them)"""
+        x = a.inputs[0]
+        axis = self.kwargs.get("axis", 0)
+        if axis is None:
+            return to_z3(N.arr_size(x))
+        return z3.If(to_z3(N.arr_scalar(x)), z3.IntVal(1), N.dim_length(it, N.shape_owner(x), axis))
+
+    def requires(self, it, a):
+        out = _Ufunc.requires(self, it, a)
+        out.append(("data is numeric", to_z3(N.arr_kind(a.inputs[0])) != N.sv("b")))
+        if self.degree != 1:
+            out.append(("operand is not logarithmic (Unit.__pow__ refuses those: its own contract)",
+                        z3.Not(is_ref(S.dim(self.units(a)[0]), "logarithmic"))))
+        return out
+
+    def algebra(self, it, k, e, cnt):
+        """assumed NumPy algebra (numpy-ufunc-reduce), instantiated at the operand's scale, element and
+        the number of elements combined"""
+        from pyvc.unyt_domain import rpow
+        f = N.reduce_fn(self.ufunc)
+        if self.degree == 1:
+            it.assume(z3.Implies(k > 0, f(k * e, cnt) == k * f(e, cnt)))
+        else:
+            kn = rpow(k, z3.ToReal(cnt))
+            it.assume(z3.Implies(k > 0, z3.And(f(k * e, cnt) == kn * f(e, cnt), kn > 0)))
+
+    def raises(self, it, a):
+        return {}
+
+    may_raise = ("AxisError",)
+
+    def ensures(self, it, a, r, old):
+        from pyvc.unyt_domain import rpow
+        P = it.domain.prefix_table(it)
+        if not N.is_unyt_array(r):
+            return [("result is a unyt object", False)]
+        u = self.units(a)[0]
+        ru = r.fields["units"]
+        origin = getattr(N.arr_buf(r), "origin", None)
+        if not (isinstance(origin, tuple) and origin and origin[0] == "reduce"):
+            return [("C06: the result holds what %s.reduce returned" % self.ufunc, False)]
+        cnt = origin[2]
+        f = N.reduce_fn(self.ufunc)
+        e = to_real(old[0]["elem"])
+        x = self.si(it, a, 0, old)
+        y = S.SI(N.arr_elem(r), ru, P)
+        self.algebra(it, S.scale(u), e, cnt)
+        out = [("C06: the reduction carried out is %s.reduce" % self.ufunc, origin[1] == self.ufunc),
+               ("C06: it runs over the axis the caller asked for (same number of elements combined)",
+                cnt == self.count(it, a)),
+               ("C06: the numbers are NumPy's reduction of the bare data", to_real(N.arr_elem(r)) == f(e, cnt)),
+               (self.law_tag() + ": SI(result) == %s.reduce(SI(x))" % self.ufunc, y == f(x, cnt)),
+               ("result unit has no zero-point offset", S.offset(ru) == 0)]
+        if self.degree == 1:
+            out.append(("C04: the result keeps the operand's dimension",
+                        z3.And(*[to_real(g) == to_real(w) for g, w in zip(S.dim(ru).vec, S.dim(u).vec)])))
+        else:
+            out.append(("C04: the dimension of a product of n elements is n times the operand's",
+                        z3.And(*[to_real(g) == to_real(w) * z3.ToReal(cnt)
+                                 for g, w in zip(S.dim(ru).vec, S.dim(u).vec)])))
+        return out + self.frames(a, old) + self.class_post(it, r)
+
+    def canary(self, it, a, r, old):
+        if not N.is_unyt_array(r):
+            return None
+        return to_real(N.arr_elem(r)) == 12345
+
+
+REDUCTIONS = []
+for _uf in ("add", "maximum", "minimum"):
+    for _sfx, _kw in (("", {}), ("_axisNone", {"axis": None}), ("_axis1", {"axis": 1})):
+        REDUCTIONS.append(_mk(_Reduce, _uf, ("q",), method="reduce", suffix=_sfx, kwargs=_kw, degree=1))
+for _sfx, _kw in (("", {}), ("_axisNone", {"axis": None}), ("_axis1", {"axis": 1}), ("_axism1", {"axis": -1})):
+    REDUCTIONS.append(_mk(_Reduce, "multiply", ("q",), method="reduce", suffix=_sfx, kwargs=_kw, degree="n"))
+ALL += REDUCTIONS
+
+
 # ------------------------------------------------------------------ use at call sites
 def _callsite_result(self, it, a, old):
     """the state after a successful call, as far as the proved postconditions pin it down: a
